@@ -235,6 +235,18 @@ def dec(rng, lo, hi, nd=3):
     return f"{s}{v // q}.{v % q:0{nd}d}"
 
 
+def sparse_tilt(rng, H, p=0.4):
+    """3D triclinic cells with only some of the three tilt factors (xy, xz, yz) non-zero — in place; code that tests "is the
+    cell tilted" on part of the matrix is wrong on exactly these"""
+    if len(H) < 3 or rng.random() >= p:
+        return H
+    keep = rng.choice([[0], [1], [2], [0, 1], [0, 2], [1, 2]])
+    for n, (i, j) in enumerate([(1, 0), (2, 0), (2, 1)]):
+        if n not in keep:
+            H[i][j] = "0" if isinstance(H[i][j], str) else type(H[i][j])(0)
+    return H
+
+
 def unfold_positions(rng, pos, H, ppp=None, frac=0.35, mmax=3):
     """unfolded coordinates (an `xu` trajectory): a fraction of the particles is moved by whole cell vectors
     Σ_a m_a·H[a] (row-vector convention, m_a ∈ −mmax..mmax, only along periodic axes), exactly, on the decimal grid.
@@ -409,27 +421,64 @@ def props_files(spec):
     return fs
 
 
+def import_closure(rels):
+    """relative paths (under lean/) of every Pms module the given files import, transitively"""
+    seen, todo = set(), list(rels)
+    while todo:
+        rel = todo.pop()
+        if rel in seen:
+            continue
+        seen.add(rel)
+        try:
+            with open(os.path.join(LEAN, rel)) as f:
+                for line in f:
+                    if line.startswith("import Pms."):
+                        todo.append(line.split()[1].replace(".", "/") + ".lean")
+                    elif line.strip() and not line.startswith(("import", "--", "/-", "set_option", "open")):
+                        if not line.startswith("import"):
+                            break
+        except OSError:
+            pass
+    return seen
+
+
 def proof_stage(run, spec):
     """regenerate, build, audit.  `spec` is the property module.  Returns dict with the broken
     obligations (empty when everything checks)."""
     broken = []
     gen_info = []
     with LakeLock():
-        # 1. regenerate
-        gens = list(getattr(spec, "GENERATORS", []))
-        if os.path.exists(os.path.join(LEAN, f"Pms/Props/{spec.PROP}Mod.lean")) and "modshape" not in gens:
-            gens.append("modshape")
-        if gens:
-            sys.path.insert(0, os.path.join(VERIF, "translator"))
-            import pms2lean
-            for g in gens:
-                try:
-                    res = pms2lean.generate(g, REPO)
-                    for rel, text, srcs in res:
-                        write_if_changed(os.path.join(LEAN, rel), text)
+        # 1. regenerate — EVERY generator, on every run: the driver and the property files import generated files of other
+        #    properties too (C09 imports C08's table), and a file left over from an earlier run against a different tree must
+        #    never be what a check builds on.  A generator that no longer recognises its source breaks this property's tie only
+        #    when its output lies in the import closure of this property's theorem files (or it is listed in GENERATORS).
+        sys.path.insert(0, os.path.join(VERIF, "translator"))
+        import pms2lean
+        if hasattr(pms2lean, "_load_gens"):
+            pms2lean._load_gens()
+        own = list(getattr(spec, "GENERATORS", []))
+        if os.path.exists(os.path.join(LEAN, f"Pms/Props/{spec.PROP}Mod.lean")) and "modshape" not in own:
+            own.append("modshape")
+        try:
+            with open(os.path.join(VERIF, "translator", "outputs.json")) as f:
+                outputs = json.load(f)
+        except (OSError, ValueError):
+            outputs = {}
+        closure = import_closure(props_files(spec))
+        for g in dict.fromkeys(list(pms2lean.ALL) + own):
+            needed = g in own or any(rel in closure for rel in outputs.get(g, []))
+            try:
+                res = pms2lean.generate(g, REPO)
+                for rel, text, srcs in res:
+                    write_if_changed(os.path.join(LEAN, rel), text)
+                    if needed or rel in closure:
                         gen_info.append({"file": rel, "sha": sha(text), "sources": srcs})
-                except pms2lean.Unrecognised as e:
+            except pms2lean.Unrecognised as e:
+                if needed:
                     broken.append({"kind": "translator", "name": f"translator:{g}", "detail": str(e)[:500]})
+                else:
+                    run.notes = getattr(run, "notes", [])
+                    run.notes.append(f"generator {g} (outside this property's import closure) no longer recognises its source: {str(e)[:200]}")
         # 2. build
         targets = [rel[:-5].replace("/", ".") for rel in props_files(spec)] + ["pmsdriver"]
         ok, log, secs = lake_build(targets)
@@ -546,7 +595,7 @@ def main(spec, argv):
                 # a failing input was found on the real code: the obligations that no longer check are part of the same report
                 # (listed in the evidence and below the VIOLATION lines), not a second violation "without failing input"
                 run.coverage["also_no_longer_checking"] = [{k: v for k, v in b.items() if k != "cases"} for b in unexplained]
-                run.notes = ["also no longer checking: " + "; ".join(f"{b['kind']} {b['name']}" for b in unexplained)[:600]]
+                run.notes = getattr(run, "notes", []) + ["also no longer checking: " + "; ".join(f"{b['kind']} {b['name']}" for b in unexplained)[:600]]
                 unexplained = []
             if unexplained:
                 names = "; ".join(f"{b['kind']} {b['name']}" for b in unexplained)
